@@ -101,6 +101,10 @@ func main() {
 	}
 	for _, p := range pkgs {
 		owned := ownedFields(p, ownerFiles)
+		conv := constsToConvert(p, constVar)
+		if p.Name == "kcache" || len(conv) > 0 {
+			writeKnobFile(p, conv, constVar)
+		}
 		for i, f := range p.Syntax {
 			name := p.CompiledGoFiles[i]
 			if !strings.HasSuffix(name, ".go") {
@@ -110,6 +114,7 @@ func main() {
 				short: p.Name + "/" + filepath.Base(name)}
 			r.yield = yield[r.short]
 			r.owned = owned
+			r.conv = conv
 			r.run()
 			sites = append(sites, r.sites...)
 			if !r.changed {
@@ -155,6 +160,7 @@ type rewriter struct {
 	core      map[*ast.BlockStmt]int // generated block -> index of its core statement (for labels)
 	funcName  string
 	funcStack []string
+	conv      map[types.Object]bool // constants that become variables (knobs and whatever is computed from them)
 	owned     map[*types.Var]string // actor-owned mutable struct fields -> "Type.field"
 }
 
@@ -236,24 +242,42 @@ func (r *rewriter) run() {
 	r.mapKeyPtr = map[*ast.AssignStmt][]int{}
 	r.core = map[*ast.BlockStmt]int{}
 
-	// const -> var
-	for _, d := range r.file.Decls {
-		gd, ok := d.(*ast.GenDecl)
-		if !ok || gd.Tok != token.CONST {
-			continue
-		}
-		for _, sp := range gd.Specs {
-			vs := sp.(*ast.ValueSpec)
-			for _, n := range vs.Names {
-				if r.constVar[n.Name] {
-					if len(gd.Specs) != 1 || len(vs.Names) != 1 {
-						fatalf("%s: constant %s is declared in a group; cannot turn into var", r.short, n.Name)
+	// const -> var: the knobs, and constants computed from them
+	if len(r.conv) > 0 {
+		var decls []ast.Decl
+		for _, d := range r.file.Decls {
+			gd, ok := d.(*ast.GenDecl)
+			if !ok || gd.Tok != token.CONST {
+				decls = append(decls, d)
+				continue
+			}
+			var keep, move []ast.Spec
+			for _, sp := range gd.Specs {
+				vs := sp.(*ast.ValueSpec)
+				hit := false
+				for _, n := range vs.Names {
+					if r.conv[r.info.Defs[n]] {
+						hit = true
 					}
-					gd.Tok = token.VAR
-					r.changed = true
+				}
+				if hit {
+					move = append(move, sp)
+				} else {
+					keep = append(keep, sp)
 				}
 			}
+			if len(move) == 0 {
+				decls = append(decls, d)
+				continue
+			}
+			r.changed = true
+			if len(keep) > 0 {
+				gd.Specs = keep
+				decls = append(decls, gd)
+			}
+			decls = append(decls, &ast.GenDecl{Tok: token.VAR, Lparen: 1, Specs: move, Rparen: 2})
 		}
+		r.file.Decls = decls
 	}
 
 	if len(r.owned) > 0 {
@@ -1027,4 +1051,112 @@ func (r *rewriter) insertTouches() {
 		}
 		return true
 	})
+}
+
+// constsToConvert: the named knobs declared in this package plus every
+// constant whose value is computed from one of them (transitively).  Returns
+// nil if a conversion would not be sound to print (a converted constant has no
+// explicit value, or is used as an array length).
+func constsToConvert(p *packages.Package, names map[string]bool) map[types.Object]bool {
+	conv := map[types.Object]bool{}
+	type spec struct {
+		vs *ast.ValueSpec
+	}
+	var specs []*ast.ValueSpec
+	for _, f := range p.Syntax {
+		for _, d := range f.Decls {
+			gd, ok := d.(*ast.GenDecl)
+			if !ok || gd.Tok != token.CONST {
+				continue
+			}
+			for _, sp := range gd.Specs {
+				vs := sp.(*ast.ValueSpec)
+				specs = append(specs, vs)
+				for _, n := range vs.Names {
+					if names[n.Name] && p.Types.Scope().Lookup(n.Name) == p.TypesInfo.Defs[n] {
+						conv[p.TypesInfo.Defs[n]] = true
+					}
+				}
+			}
+		}
+	}
+	if len(conv) == 0 {
+		return nil
+	}
+	for changed := true; changed; {
+		changed = false
+		for _, vs := range specs {
+			uses := false
+			for _, v := range vs.Values {
+				ast.Inspect(v, func(n ast.Node) bool {
+					if id, ok := n.(*ast.Ident); ok && conv[p.TypesInfo.Uses[id]] {
+						uses = true
+					}
+					return true
+				})
+			}
+			if uses {
+				for _, n := range vs.Names {
+					if o := p.TypesInfo.Defs[n]; o != nil && !conv[o] {
+						conv[o] = true
+						changed = true
+					}
+				}
+			}
+		}
+	}
+	ok := true
+	for _, vs := range specs {
+		for _, n := range vs.Names {
+			if conv[p.TypesInfo.Defs[n]] && len(vs.Values) == 0 {
+				ok = false // implicit repetition (iota groups)
+			}
+		}
+	}
+	for _, f := range p.Syntax {
+		ast.Inspect(f, func(n ast.Node) bool {
+			if at, isArr := n.(*ast.ArrayType); isArr && at.Len != nil {
+				ast.Inspect(at.Len, func(m ast.Node) bool {
+					if id, isID := m.(*ast.Ident); isID && conv[p.TypesInfo.Uses[id]] {
+						ok = false
+					}
+					return true
+				})
+			}
+			return true
+		})
+	}
+	if !ok {
+		return nil
+	}
+	return conv
+}
+
+// writeKnobFile adds zz_detsim_knobs.go to the package: setters the harness
+// calls instead of assigning to identifiers that may or may not have become
+// variables.
+func writeKnobFile(p *packages.Package, conv map[types.Object]bool, names map[string]bool) {
+	if len(p.CompiledGoFiles) == 0 {
+		return
+	}
+	dir := filepath.Dir(p.CompiledGoFiles[0])
+	var b bytes.Buffer
+	fmt.Fprintf(&b, "// Code generated by kcinstr; DO NOT EDIT.\n\npackage %s\n\n", p.Name)
+	var ns []string
+	for n := range names {
+		ns = append(ns, n)
+	}
+	sort.Strings(ns)
+	for _, n := range ns {
+		obj := p.Types.Scope().Lookup(n)
+		if obj == nil {
+			continue
+		}
+		if conv[obj] {
+			fmt.Fprintf(&b, "// DetsimSet%s sets the knob (true: it is a variable in this build).\nfunc DetsimSet%s(v int) bool { %s = v; return true }\n\n", n, n, n)
+		} else {
+			fmt.Fprintf(&b, "// DetsimSet%s: the constant could not be turned into a variable in this tree.\nfunc DetsimSet%s(v int) bool { return false }\n\n", n, n)
+		}
+	}
+	os.WriteFile(filepath.Join(dir, "zz_detsim_knobs.go"), b.Bytes(), 0644)
 }
